@@ -171,7 +171,7 @@ def matmul_dense_mismatch(ob, d, k, nb):
 # ---- methods
 @scenario('C18', 'method.misuse', 'torchtt._tt_base.TT', quick=[dict(case=c) for c in (
         't_on_tensor', 'sum_out_of_range', 'sum_list_out_of_range', 'sum_list_high_first', 'sum_ttm_out_of_range', 'sum_negative', 'sum_bad_type', 'mprod_on_ttm', 'mprod_size', 'mprod_bad_args', 'mprod_mode_range',
-        'qtt_not_list', 'qtt_shape', 'getitem_too_few', 'getitem_too_many', 'getitem_int_range', 'getitem_float', 'getitem_two_ellipsis',
+        'qtt_not_list', 'qtt_shape', 'getitem_too_few', 'getitem_too_many', 'getitem_int_range', 'getitem_float', 'getitem_bool', 'getitem_two_ellipsis',
         'getitem_int_on_order2', 'getitem_slice_on_order2', 'getitem_ttm_ellipsis', 'getitem_ttm_mixed', 'set_core_index', 'set_core_rank',
         'fast_matvec_not_tt', 'fast_matvec_kinds', 'fast_matvec_shape', 'fast_matvec_order', 'mprod_list_len', 'getitem_ttm_odd', 'to_qtt_not_power', 'to_qtt_tensor_not_power', 'to_qtt_ttm_rect', 'ctor_bad_source', 'getitem_str')],
           expect='raise', replay='misuse')
@@ -231,6 +231,8 @@ def method_misuse(ob, case):
         ob.ret = ex.optable.subscript(ex, ob.tt('x', 2), (1.5, 0))
     elif case == 'getitem_str':
         ob.ret = ex.optable.subscript(ex, ob.tt('x', 2), 'a')
+    elif case == 'getitem_bool':
+        ob.ret = ex.optable.subscript(ex, ob.tt('x', 2), (True, 0, 0))
     elif case == 'getitem_two_ellipsis':
         ob.ret = ex.optable.subscript(ex, ob.tt('x', 3), (Ellipsis, 0, Ellipsis))
     elif case == 'getitem_int_on_order2':
